@@ -1,0 +1,5 @@
+//go:build !verif
+
+package cmsys
+
+func verifPoint(name string, data interface{}) {}
